@@ -726,6 +726,9 @@ void Exec::do_init(const Step& st, const Client& cl, const std::string& handle_i
   ++ninit;
   bool existed = R.m.count(handle) > 0;
   bool same_sol = existed && R.m[handle].sol == solidx;
+  // what the instance selected until now was asked last (first-call-after-init probe below)
+  std::vector<Inst::Recent> prev_recent;
+  if (Inst* pc = R.cur_inst()) prev_recent = pc->recent;
   if (existed) fire("F3_reinit_live_handle");
   long long bytes0 = simseam::alloc_stats().live_bytes;
   CallOut co = call(false, [&] {
@@ -763,6 +766,32 @@ void Exec::do_init(const Step& st, const Client& cl, const std::string& handle_i
     if (bytes1 - bytes0 > 512)
       viol("C19", "C19.growth.reinit", g_sols[solidx].name,
            "re-initialising an existing handle with the same solution grew live library memory by " + std::to_string(bytes1 - bytes0) + " bytes");
+  }
+  // First call after masa_init (C15): before anything else is asked of the new instance, repeat the evaluator calls
+  // that the previously selected instance answered last, where the new solution does not provide them.  State kept
+  // outside the instance ("the last answer") must not survive the switch that masa_init performs.
+  if (!prev_recent.empty() && (st.u >> 9) % 2 == 0) {
+    const Sol& nsol = g_sols[solidx];
+    int asked = 0;
+    for (auto rit = prev_recent.rbegin(); rit != prev_recent.rend() && asked < 2; ++rit) {
+      if (nsol.caps[rit->ev] || nsol.avoid[rit->ev]) continue;
+      Step es;
+      es.op = OP_EVAL;
+      es.client = st.client;
+      es.a = rit->ev;
+      es.k = rit->k;
+      es.c = rit->cbkind;
+      es.u = st.u;
+      eval_abs = rit->x;
+      eval_abs_k = true;
+      Client ccl = cl;
+      ccl.lang = 0;
+      do_eval<S>(es, ccl, rit->ev, 1);
+      eval_abs = nullptr;
+      eval_abs_k = false;
+      ++asked;
+      if (stop) return;
+    }
   }
   post_init<S>(prec, handle, raw, existed, C);
 }
@@ -817,7 +846,35 @@ void Exec::do_eval(const Step& st, const Client& cl, int ev, int depth) {
   }
   if (iscb && !supported && (st.u >> 20) % 3 == 0) nullcb = true;
   if (supported && !inst.evaluable()) {
-    ++skipped;
+    // Outside the admissible pool nothing is claimed about the VALUE (and a fatal error is the library's right), but
+    // "evaluating never changes a parameter" has no such restriction.  Marker-state probe: when every inadmissible
+    // scalar is exactly the uninitialised marker (the state after masa_purge_default_param, possibly followed by a
+    // few stores), the evaluator is called once through C++ and all parameters are read back.  Exception build only
+    // (an exit() here would end the worker); solutions with vector parameters are left out (their loop bounds are
+    // scalars); the value is neither recorded nor compared.
+    bool probe = kExcBuild && depth == 0 && inst.discovered && !sol.fixture && inst.v.empty() && !iscb && (st.u >> 13) % 2 == 0;
+    if (probe)
+      for (const std::string& n : inst.wild)
+        if (bits_of(ms<S>(inst.p[n])) != bits_of(marker<S>())) probe = false;
+    if (!probe) {
+      ++skipped;
+      return;
+    }
+    CbCtx savedcb0 = g_cb;
+    g_cb = CbCtx();
+    set_owner("C10");
+    S r0 = S(0);
+    CallOut cm = call(false, [&] { r0 = prim(false); });
+    g_cb = savedcb0;
+    (void)r0;
+    if (cm.oc != OC_RETURN) {  // inconclusive: the state is outside the documented domain
+      if (kExcBuild) stop = true;
+      return;
+    }
+    fire("F9_marker_state_evaluation");
+    orc_eval("C10");
+    TRACE("eval %s/%s on %s (%s) in a marker state: read-back only", E.shortname, E.sig, R.cur.c_str(), sol.name.c_str());
+    verify_selected<S>(prec, inst, "C10", "C10.frame.eval");
     return;
   }
   covcells.insert(mix64((uint64_t)inst.sol * 1000 + (uint64_t)ev, (uint64_t)prec));
